@@ -11,41 +11,54 @@ from . import replayeng
 VERIF = os.path.dirname(os.path.dirname(os.path.abspath(__file__)))
 
 
+SPEC = {
+    'C06': dict(cmd='c06bound', quick=5, thorough=7, tag='C06BOUND',
+                what='C06: every text over {" \\ / * LF CR SP a} up to N bytes through the real preprocess_str: a text the reference scan says must be accepted comes back Ok and unchanged (K3/K4 aside)',
+                label='C06.bounded.directive-free-texts-up-to-%s-bytes'),
+    'C05': dict(cmd='c05bound', quick=5, thorough=7, tag='C05BOUND',
+                what='C05: `M(X) for M(a,b) = <a|b> and every well-nested actual-argument text X over {a , ( ) [ ] { } "..."} up to N bytes: arguments are split at the top-level commas only',
+                label='C05.bounded.actual-arguments-up-to-%s-bytes'),
+}
+
+
 def run(prop, tier, seed, **kw):
     t0 = time.time()
-    n = 7 if tier == 'thorough' else 5
+    sp = SPEC[prop]
+    n = sp[tier if tier in ('quick', 'thorough') else 'quick']
     res = dict(unit='bounded', status='ok', reason='', functions=[], failures=[], verified=0, errors=0, rewrites=[], assumptions={},
-               extracted=[], mustfail=[], wall_s=0.0, smt_ms=0, props=['C06'], samples=[],
-               backend='BOUNDED stand-in: exhaustive enumeration through the real preprocess_str (not a proof)', cmd='vreplay c06bound %d' % n)
+               extracted=[], mustfail=[], wall_s=0.0, smt_ms=0, props=[prop], samples=[],
+               backend='BOUNDED stand-in: exhaustive enumeration through the real preprocess_str (not a proof)', cmd='vreplay %s %d' % (sp['cmd'], n))
     ok, out = replayeng.build()
     if not ok:
         res['status'] = 'undecided'
         res['reason'] = 'replay crate does not build: ' + out[-300:]
         res['soft_undecided'] = [res['reason']]
-        res['soft_props'] = ['C06']
+        res['soft_props'] = [prop]
         return res
-    p = subprocess.run([replayeng.BIN, 'c06bound', str(n)], stdout=subprocess.PIPE, stderr=subprocess.STDOUT, timeout=3000)
+    p = subprocess.run([replayeng.BIN, sp['cmd'], str(n)], stdout=subprocess.PIPE, stderr=subprocess.STDOUT, timeout=3000)
     o = p.stdout.decode('utf-8', 'replace')
-    m = re.search(r'C06BOUND n=(\d+) texts=(\d+) must_accept=(\d+) bad=(\d+)', o)
+    m = re.search(sp['tag'] + r' n=(\d+) texts=(\d+)(?: must_accept=(\d+))? bad=(\d+)', o)
     if not m:
         res['status'] = 'undecided'
         res['reason'] = 'bounded check produced no result: ' + o[-200:]
         res['soft_undecided'] = [res['reason']]
-        res['soft_props'] = ['C06']
+        res['soft_props'] = [prop]
         return res
-    res['samples'].append(dict(bounded_check='C06: every text over {" \\ / * LF CR SP a} up to %s bytes through the real preprocess_str' % m.group(1),
-                               texts=int(m.group(2)), must_be_accepted=int(m.group(3)), failing=int(m.group(4)), label='bounded', counted_as_proved=False))
+    res['samples'].append(dict(bounded_check=sp['what'].replace(' N ', ' %s ' % m.group(1)),
+                               texts=int(m.group(2)), must_be_accepted=int(m.group(3) or m.group(2)), failing=int(m.group(4)), label='bounded', counted_as_proved=False))
     if int(m.group(4)) > 0:
         first = [l.strip() for l in o.split('\n')[1:] if l.strip()][:3]
-        mm = re.match(r'(REJECTED|CHANGED) ("(?:[^"\\]|\\.)*")', first[0]) if first else None
+        mm = re.match(r'(REJECTED|CHANGED|ARGS) ("(?:[^"\\]|\\.)*")', first[0]) if first else None
         inp = None
         if mm:
             try:
                 inp = eval(mm.group(2).replace('\\r', '\\r'))
             except Exception:
                 inp = None
-        res['failures'].append(dict(fn='preprocess_str', kind='bounded enumeration found directive-free text(s) that are rejected or altered: ' + ' ; '.join(first),
-                                    label='C06.bounded.directive-free-texts-up-to-%s-bytes' % m.group(1), props=['C06'], repo='sv-parser-parser (pp lexers)', spec='vreplay c06bound',
+        if inp is not None and prop == 'C05':
+            inp = '`define M(a,b) <a|b>\n`M(%s)\n' % inp
+        res['failures'].append(dict(fn='preprocess_str', kind='bounded enumeration through the real code found failing input(s): ' + ' ; '.join(first),
+                                    label=sp['label'] % m.group(1), props=[prop], repo='sv-parser-parser (pp lexers)', spec='vreplay ' + sp['cmd'],
                                     snippet='', notes=[], witness=dict(source='bounded enumeration through the real code', input=inp, args=['pp', inp] if inp is not None else None, observed=first)))
         res['status'] = 'fail'
         res['errors'] = 1
